@@ -1,8 +1,25 @@
 package binary
 
 import (
+	"bytes"
 	"io"
 )
+
+// ReadBytes reads exactly n bytes from r. The result grows with the data that
+// is actually received, so a corrupt length field can't cause a huge
+// allocation, and short reads from r are not mistaken for the end of the data.
+func ReadBytes(r io.Reader, n uint32) ([]byte, error) {
+	buf := bytes.NewBuffer(make([]byte, 0, bytes.MinRead))
+	_, err := io.CopyN(buf, r, int64(n))
+	if err == io.EOF && buf.Len() > 0 {
+		err = io.ErrUnexpectedEOF
+	}
+	if err != nil {
+		return nil, err
+	}
+	data := buf.Bytes()
+	return data[:len(data):len(data)], nil
+}
 
 func ReadU16Big(r io.ByteReader) (uint16, error) {
 	b1, err := r.ReadByte()
